@@ -93,33 +93,41 @@ def skipUntilPos (subs : List Str) (pos : Nat) : Nat :=
 
 def isTriviaName (n : String) : Bool := n == "COMMENT" || n == "WHITESPACE"
 
+/-- does the rule run its body under `with state.atomic_checkpoint():`? -/
+def ruleScoped (name : String) (mod : Nat) : Bool :=
+  hasBit mod ATOMIC || hasBit mod COMPOUND || isTriviaName name || hasBit mod NONATOMIC
+
+/-- entering the body: `atomic_depth += 1` for `@`, `$` and the trivia rules, `.zero()` for `!`,
+    both after `atomic_depth.snapshot()`; nothing otherwise -/
+def ruleEnter (name : String) (mod : Nat) (c1 : PState) : PState :=
+  if hasBit mod ATOMIC || hasBit mod COMPOUND || isTriviaName name then
+    { c1 with adepth := (c1.adepth.snapshot).add 1 }
+  else if hasBit mod NONATOMIC then
+    { c1 with adepth := (c1.adepth.snapshot).zero }
+  else c1
+
+/-- after the body: leave the `with` block, pop the rule stack, make the pair -/
+def ruleExit (name : String) (mod : Nat) (start : Nat) (matched : Bool) (c2 : PState)
+    (children : List Pair) : R1 :=
+  let c3 := if ruleScoped name mod then { c2 with adepth := c2.adepth.restore } else c2
+  match c3.rstack.pop with
+  | none => .exc .indexError
+  | some (_, rs) =>
+    let c4 := { c3 with rstack := rs }
+    if !matched then .done false c4 []
+    else if hasBit mod SILENT then .done true c4 children
+    else
+      let (tag, c5) : Option String × PState :=
+        match c4.tagStack with
+        | [] => (none, c4)
+        | t :: ts => (some t, { c4 with tagStack := ts })
+      let children := if hasBit mod ATOMIC then visibleList children else children
+      .done true c5 [.mk name mod start c5.pos children tag]
+
 /-- `Rule.parse(state, pairs)` for a rule (name, modifier, body) -/
 def ruleParse (rec : Sem1) (name : String) (mod : Nat) (body : Expr) (c : PState) : R1 :=
-  let start := c.pos
-  let c1 := { c with rstack := c.rstack.push name }
-  let enter : PState :=
-    if hasBit mod ATOMIC || hasBit mod COMPOUND || isTriviaName name then
-      { c1 with adepth := (c1.adepth.snapshot).add 1 }
-    else if hasBit mod NONATOMIC then
-      { c1 with adepth := (c1.adepth.snapshot).zero }
-    else c1
-  let isScoped := hasBit mod ATOMIC || hasBit mod COMPOUND || isTriviaName name || hasBit mod NONATOMIC
-  match rec body enter with
-  | .done matched c2 children =>
-    let c3 := if isScoped then { c2 with adepth := c2.adepth.restore } else c2
-    match c3.rstack.pop with
-    | none => .exc .indexError
-    | some (_, rs) =>
-      let c4 := { c3 with rstack := rs }
-      if !matched then .done false c4 []
-      else if hasBit mod SILENT then .done true c4 children
-      else
-        let (tag, c5) : Option String × PState :=
-          match c4.tagStack with
-          | [] => (none, c4)
-          | t :: ts => (some t, { c4 with tagStack := ts })
-        let children := if hasBit mod ATOMIC then visibleList children else children
-        .done true c5 [.mk name mod start c5.pos children tag]
+  match rec body (ruleEnter name mod { c with rstack := c.rstack.push name }) with
+  | .done matched c2 children => ruleExit name mod c.pos matched c2 children
   | r => r
 
 /-- `with state.tag(t): …` — push, run, then `if self.tag_stack: self.tag_stack.pop()` -/
@@ -139,25 +147,39 @@ def callRule (rec : Sem1) (name : String) (c : PState) : R1 :=
 
 /-! #### ParserState.parse_trivia -/
 
+/-- one guarded attempt of `parse_trivia` at a trivia rule -/
+inductive TryR where
+  | matched (c : PState) (ps : List Pair)     -- `state.ok(); continue`
+  | no (c : PState)                           -- `state.restore()`, fall through (or no such rule)
+  | stop (r : R1)                             -- out of fuel / exception
+
+def tryTrivia (rec : Sem1) (r : Option Rule) (c : PState) : TryR :=
+  match r with
+  | none => .no c
+  | some r =>
+    match ruleParse rec r.name r.mod r.body c.checkpoint with
+    | .done true c' ps => .matched c'.ok ps
+    | .done false c' _ => .no c'.restore
+    | r => .stop r
+
 /-- the `while True` loop of `parse_trivia`; `acc` = pairs appended so far -/
 def triviaLoop (rec : Sem1) (ws cm : Option Rule) : Nat → PState → List Pair → R1
   | 0, _, _ => .oof
   | k + 1, c, acc =>
-    let tryRule (r : Option Rule) (c : PState) (next : PState → R1) : R1 :=
-      match r with
-      | none => next c
-      | some r =>
-        match ruleParse rec r.name r.mod r.body c.checkpoint with
-        | .done true c' ps => triviaLoop rec ws cm k c'.ok (acc ++ ps)     -- `continue`
-        | .done false c' _ => next c'.restore
-        | r => r
-    tryRule ws c fun c => tryRule cm c fun c => .done true c acc            -- `break`
+    match tryTrivia rec ws c with
+    | .matched c' ps => triviaLoop rec ws cm k c' (acc ++ ps)
+    | .stop r => r
+    | .no c1 =>
+      match tryTrivia rec cm c1 with
+      | .matched c' ps => triviaLoop rec ws cm k c' (acc ++ ps)
+      | .stop r => r
+      | .no c2 => .done true c2 acc                                          -- `break`
 
 /-- `ParserState.parse_trivia(pairs)`; the Boolean it returns is never used by callers -/
 def parseTrivia (rec : Sem1) (k : Nat) (c : PState) : R1 :=
   if c.adepth.val > 0 then .done false c []
   else
-    match g.lookup "SKIP" with
+    match g.fusedSkip with
     | some skip => ruleParse rec skip.name skip.mod skip.body c
     | none =>
       let ws := g.lookup "WHITESPACE"
